@@ -39,7 +39,9 @@ static inline void c8_push_substr(vvec* ret, const vstr* s, size_t pos, size_t n
 /* ---- a vector<string> given as input: element i is src[v[i].start, v[i].start + v[i].len) ------------------------- */
 typedef struct { size_t start; size_t len; } vslice;
 typedef struct { const vslice* v; size_t n; const vstr* src; } vsvec;
+#ifndef VSVEC_MAXN
 #define VSVEC_MAXN 0x1000000000ull
+#endif
 
 static inline const vslice* c8_item(const vsvec* items, size_t i)
 {
